@@ -102,3 +102,13 @@ func newSeparator() *Row { return &Row{isSeparator: true} }
 func (r *Row) IsSeparator() bool {
 	return r.isSeparator
 }
+
+// AddErrorList records a list of errors against a row; as with AddError, a
+// row which is not yet in a table and has seen no errors gets a container
+// first, so that the errors are kept and move to the table with the row.
+func (r *Row) AddErrorList(el []error) {
+	if r.ErrorContainer == nil {
+		r.ErrorContainer = NewErrorContainer()
+	}
+	r.ErrorContainer.AddErrorList(el)
+}
